@@ -54,7 +54,7 @@ def wellformed(rng):
     for n in ns:
         f = Fraction(n[0], n[1]); n[0], n[1] = f.numerator, f.denominator
     return {"k": "rt", "ns": ns, "types": c09.ALLTYPES, "mode": rng.choice([1, 2, 3, 3]), "join": rng.random() < 0.85,
-            "ph": rng.choice([1, 2, 3]), "pt": rng.choice([1, 2, 3]), "pol": rng.choice([1, 2, 3])}
+            "ph": rng.choice([1, 2, 3]), "pt": rng.choice([1, 2, 3]), "pol": rng.choice([1, 2, 3]), "shape": rng.choice([0, 1, 2, 3])}
 
 
 def corpus():
@@ -98,14 +98,15 @@ def gen(rng, i, tier):
         tails = [(o[6], o[2]) for o in items if len(o) == 8]
         if len(set(tails)) != len(tails):
             items = [o for o in items if len(o) != 8]
-        return {"k": "hand", "groups": [[o] for o in items], "pol": rng.choice([1, 2, 3])}
+        return {"k": "hand", "groups": [[o] for o in items], "pol": rng.choice([1, 2, 3]), "shape": rng.choice([0, 0, 2])}
     if rng.random() < 0.3:
         return wellformed(rng)
     c = c09.gen(rng, 10 ** 9, tier)
     for n in c["ns"]:
         if n[3] == "3":
             n[5] = None
-    return {"k": "rt", "ns": c["ns"], "types": c["types"], "mode": c["mode"], "join": c["join"], "ph": c["ph"], "pt": c["pt"], "pol": rng.choice([1, 2, 3])}
+    return {"k": "rt", "ns": c["ns"], "types": c["types"], "mode": c["mode"], "join": c["join"], "ph": c["ph"], "pt": c["pt"], "pol": rng.choice([1, 2, 3]),
+            "shape": c.get("shape", 0)}
 
 
 N_QUICK = len(enumeration(2)) + 1500
@@ -133,9 +134,11 @@ def impl(c):
     try:
         if c["k"] == "hand":
             groups = [[mk_item(o) for o in g] for g in c["groups"]]
+            if c.get("shape", 0) >= 2:
+                groups = iter(groups)          # ungroup_notes takes any iterable of groups
         else:
             ns = [G.mk_note(o) for o in stream(c)]
-            groups = group_notes(ns, include_note_types=frozenset(NoteType(t) for t in c["types"]), same_beat_notes=SameBeatNotes(c["mode"]),
+            groups = group_notes(c09.shaped(c, ns), include_note_types=frozenset(NoteType(t) for t in c["types"]), same_beat_notes=SameBeatNotes(c["mode"]),
                                  join_heads_to_tails=c["join"], orphaned_head=OrphanedNotes(c["ph"]), orphaned_tail=OrphanedNotes(c["pt"]))
         return ["ok", [G.note_obs(n) for n in ungroup_notes(groups, orphaned_notes=pol)]]
     except OrphanedNoteException as e:
